@@ -102,6 +102,32 @@ func scriptDec(s *exec.State, b []byte) {
 	for _, u := range exec.Units {
 		s.UnitDecode(u, 1)
 	}
+	// the same bytes into receivers that have decoded something before (C01: no panic)
+	for _, entry := range exec.Entries {
+		if firsts := reuseSeeds()[entry]; len(firsts) > 0 {
+			s.UnmarshalReuse(entry, firsts[len(b)%len(firsts)], 1)
+		}
+	}
+}
+
+var reuseSeedCache map[string][][]byte
+
+// reuseSeeds: for every kind a few valid packets with long lists (what a reused receiver may still hold).
+func reuseSeeds() map[string][][]byte {
+	if reuseSeedCache != nil {
+		return reuseSeedCache
+	}
+	g := gen.New(12345)
+	m := map[string][][]byte{}
+	for _, k := range gen.Kinds {
+		for i := 0; i < 40 && len(m[k]) < 3; i++ {
+			if b := encodeWith(g.Of(k)); len(b) >= 24 {
+				m[k] = append(m[k], b)
+			}
+		}
+	}
+	reuseSeedCache = m
+	return m
 }
 
 // scriptDgram: datagram-only decode with the C09 follow-up.
